@@ -232,7 +232,7 @@ def run(tier):
             while done < reps and tries < reps * 6:
                 tries += 1
                 spec = filegen.gen_spec(R, n_lf=1, small=True, vrl=R.choice([8192, 128]))
-                spec['write']['data_kind'] = 'inline'
+                spec['write'].update({'data_kind': 'inline', 'from_idx': 0, 'to_idx': None})
                 if not mut(spec, R):
                     continue
                 done += 1
